@@ -494,6 +494,8 @@ def gen_scenario(root, profile=None):
     if r2.chance(p["p_shuffle_keys"]) and p["world"] != "sim":
         script["shuffle_keys"] = True  # the script lists the entries of a report in varying order
     script["level_noise"] = r2.choice([0.4, 0.4, 0.15, 0.05])
+    if kind == "sync_hb_bo":
+        sched["searcher_data"] = "rungs" if sched.get("gp_model") == "gp_independent" else r2.choice(["rungs", "all"])
     if kind == "moasha" and r2.chance(p["p_sparse_moasha"]) and max_t >= 4:
         # scripts that report only every k-th epoch (and their last one), some of which end on their own before the
         # maximum resource: a report can pass several rung levels at once, and a trial can complete between rung levels
@@ -655,6 +657,7 @@ def build_scheduler(scen):
         if kind == "sync_hb_bo":
             kw["searcher"] = "bayesopt"
             kw["search_options"] = gp_search_options(s)
+            kw["searcher_data"] = s.get("searcher_data", "rungs")
         else:
             kw["search_options"] = extra_search_options(s, {"debug_log": False}) if kind == "sync_hb" else {"debug_log": False}
         cls = GeometricDifferentialEvolutionHyperbandScheduler if kind == "dehb" else SynchronousGeometricHyperbandScheduler
